@@ -53,5 +53,7 @@ SEEDED = [
     ("C16-7", "C16-BYTES"),
     ("C16-8", "C16-SEP"),
     ("C16-9", "C16-BYTES"),
+    ("C16-10", "C16-ATT"),
+    ("C16-11", "C16-ORDER"),
 ]
 MUTANTS = list(MUTANTS) + [_P("seed-" + sid, _os.path.join(_SEEDS, sid, "patch.diff"), rule) for sid, rule in SEEDED if _os.path.exists(_os.path.join(_SEEDS, sid, "patch.diff"))]
